@@ -229,6 +229,12 @@ func (t *tr) paramTypesOf(fs *FuncSpec) []types.Type {
 // frameExpr: the heap after a call = old heap with the modified places taken from the new version.
 func frameExpr(old, nw string, targets []modTarget) (string, bool) {
 	expr := old
+	type grp struct {
+		a, b  string
+		cells []string
+	}
+	var groups []*grp
+	gidx := map[string]*grp{}
 	for _, m := range targets {
 		switch m.kind {
 		case 0:
@@ -236,10 +242,24 @@ func frameExpr(old, nw string, targets []modTarget) (string, bool) {
 		case 1:
 			expr = fmt.Sprintf("(store %s %s (store (select %s %s) %s (select (select %s %s) %s)))", expr, m.obj[0], expr, m.obj[0], m.obj[1], nw, m.obj[0], m.obj[1])
 		case 2:
-			expr = sto(expr, m.loc, sel(nw, m.loc))
+			a, b, c := locParts(m.loc)
+			g := gidx[a+"|"+b]
+			if g == nil {
+				g = &grp{a: a, b: b}
+				gidx[a+"|"+b] = g
+				groups = append(groups, g)
+			}
+			g.cells = append(g.cells, c)
 		case 3:
 			expr = storeKeys(expr, nw, m.keys)
 		}
+	}
+	for _, g := range groups {
+		arr := fmt.Sprintf("(select (select %s %s) %s)", expr, g.a, g.b)
+		for _, c := range g.cells {
+			arr = fmt.Sprintf("(store %s %s (select (select (select %s %s) %s) %s))", arr, c, nw, g.a, g.b, c)
+		}
+		expr = fmt.Sprintf("(store %s %s (store (select %s %s) %s %s))", expr, g.a, expr, g.a, g.b, arr)
 	}
 	return expr, false
 }
@@ -311,16 +331,53 @@ func (t *tr) frameGoal(h, cur string, targets []modTarget, ty, ref string) strin
 	objF := fmt.Sprintf("(select (select %s %s) %s)", cur, ty, ref)
 	obj0 := fmt.Sprintf("(select (select %s %s) %s)", v0, ty, ref)
 	lhs := objF
+	type grp struct {
+		a, b  string
+		cells []string
+	}
+	var groups []*grp
+	gidx := map[string]*grp{}
 	for _, m := range targets {
 		switch m.kind {
 		case 1:
 			ante = append(ante, fmt.Sprintf("(not (and (= %s %s) (= %s %s)))", ty, m.obj[0], ref, m.obj[1]))
 		case 2:
 			a, b, c := locParts(m.loc)
-			lhs = fmt.Sprintf("(ite (and (= %s %s) (= %s %s)) (store %s %s (select %s %s)) %s)", ty, a, ref, b, lhs, c, obj0, c, lhs)
+			g := gidx[a+"|"+b]
+			if g == nil {
+				g = &grp{a: a, b: b}
+				gidx[a+"|"+b] = g
+				groups = append(groups, g)
+			}
+			g.cells = append(g.cells, c)
 		}
 	}
+	for _, g := range groups {
+		patched := objF
+		for _, c := range g.cells {
+			patched = fmt.Sprintf("(store %s %s (select %s %s))", patched, c, obj0, c)
+		}
+		lhs = fmt.Sprintf("(ite (and (= %s %s) (= %s %s)) %s %s)", ty, g.a, ref, g.b, patched, lhs)
+	}
 	return fmt.Sprintf("(=> (and %s) (= %s %s))", strings.Join(ante, " "), lhs, obj0)
+}
+
+// ghostFrameGoal: the ghost heap restored at the modifies targets equals its entry version; for ghosts keyed by an
+// object reference only entries of objects that existed at entry are compared (fresh objects start unconstrained).
+func (t *tr) ghostFrameGoal(h, cur string, targets []modTarget, fr string) string {
+	v0 := t.heapV0(h)
+	restored := cur
+	for _, m := range targets {
+		if m.kind == 0 {
+			return ""
+		}
+		restored = storeKeys(restored, v0, m.keys)
+	}
+	g := t.eng.specs.Ghosts[h[2:]]
+	if g != nil && len(g.Keys) > 0 && g.Keys[0] == "ref" {
+		return fmt.Sprintf("(=> (existed %s) (= (select %s %s) (select %s %s)))", fr, restored, fr, v0, fr)
+	}
+	return fmt.Sprintf("(= %s %s)", restored, v0)
 }
 
 // frameObligations: at a return (or a loop back edge), everything that existed at entry and is not named by
@@ -353,11 +410,12 @@ func (t *tr) frameObligations(heaps map[string]string, R string, label string, p
 			}
 			t.oblige("frame", fmt.Sprintf("frame/%s@%s", h, label), R, goal, pos)
 		} else if strings.HasPrefix(h, "G_") {
-			expr, whole := frameExpr(v0, cur, by[h])
-			if whole {
+			fr := t.fresh("frame_gref", "Int")
+			goal := t.ghostFrameGoal(h, cur, by[h], fr)
+			if goal == "" {
 				continue
 			}
-			t.oblige("frame", fmt.Sprintf("frame/%s@%s", h[2:], label), R, fmt.Sprintf("(= %s %s)", cur, expr), pos)
+			t.oblige("frame", fmt.Sprintf("frame/%s@%s", h[2:], label), R, goal, pos)
 		}
 	}
 }
@@ -383,9 +441,16 @@ func (t *tr) frameAssume(heaps map[string]string, R string, only map[string]bool
 			}
 			t.assume(R, fmt.Sprintf("(forall ((%s Int) (%s Int)) (! %s :pattern ((select (select %s %s) %s))))", ty, ref, goal, cur, ty, ref))
 		} else if strings.HasPrefix(h, "G_") {
-			expr, whole := frameExpr(v0, cur, by[h])
-			if !whole {
-				t.assume(R, fmt.Sprintf("(= %s %s)", cur, expr))
+			t.nfresh++
+			fr := fmt.Sprintf("fgref%d", t.nfresh)
+			goal := t.ghostFrameGoal(h, cur, by[h], fr)
+			if goal == "" {
+				continue
+			}
+			if strings.Contains(goal, fr) {
+				t.assume(R, fmt.Sprintf("(forall ((%s Int)) (! %s :pattern ((select %s %s))))", fr, goal, cur, fr))
+			} else {
+				t.assume(R, goal)
 			}
 		}
 	}
@@ -420,6 +485,8 @@ func (t *tr) call(ins ssa.Instruction, cc *ssa.CallCommon, R string, heaps map[s
 		if _, isClosure := cc.Value.(*ssa.MakeClosure); isClosure {
 			// a closure made in this function: bindings are passed implicitly; contract (if any) sees params only
 		}
+	case func() bool { k, _ := t.globalFuncCallee(cc); return k != "" }():
+		name, callee = t.globalFuncCallee(cc)
 	default:
 		name = "<dynamic>"
 		fv := t.v(cc.Value)
@@ -502,6 +569,8 @@ func (t *tr) call(ins ssa.Instruction, cc *ssa.CallCommon, R string, heaps map[s
 		t.fatalf("call to %s: %v", name, err)
 		return
 	}
+	env2.callerSide = true
+	env2.callerPtrs = append([]string{}, t.ptrs...)
 	isFresh := map[string]bool{}
 	for _, f := range fs.Fresh {
 		isFresh[f] = true
@@ -696,6 +765,7 @@ func (t *tr) appendBuiltin(ins ssa.Instruction, x ssa.Value, args []ssa.Value, R
 	t.assume(R, fmt.Sprintf("(ite %s (and (= (styp %s) (styp %s)) (= (sref %s) (sref %s)) (= (soff %s) (soff %s)) (= (scap %s) (scap %s))) (and (= (styp %s) %d) (= (sref %s) %s) (= (soff %s) 0) (>= (scap %s) %s)))",
 		inPlace, r, s, r, s, r, s, r, s, r, tag, r, nr, r, r, newLen))
 	// cells
+	preInt := t.H(heaps, "H_int")
 	rTyp, rRef, rOff := "(styp "+r+")", "(sref "+r+")", "(soff "+r+")"
 	oldCells := mulConst("(slen "+s+")", k)
 	newCells := mulConst(eLen, k)
@@ -721,7 +791,21 @@ func (t *tr) appendBuiltin(ins ssa.Instruction, x ssa.Value, args []ssa.Value, R
 		t.assume(R, fmt.Sprintf("(=> %s (forall ((y Int)) (! (=> (not (and (<= %s y) (< y (+ %s %s)))) (= (select (select (select %s %s) %s) y) (select (select (select %s %s) %s) y))) :pattern ((select (select (select %s %s) %s) y)))))",
 			inPlace, dOff, dOff, newCells, nw, rTyp, rRef, old, rTyp, rRef, nw, rTyp, rRef))
 	}
-	// when the new backing object is fresh, other heap sorts' cells at that object are unconstrained (fine)
+	if k == 1 && leafSort(el) == "int" {
+		nw, old := t.H(heaps, "H_int"), ""
+		_ = old
+		// the appended-to byte sequence is the concatenation (true by the semantics of append; saves an extensionality proof)
+		var eseq string
+		if isStr {
+			eseq = "(seq_of_str " + t.v(args[1]) + ")"
+		} else if len(args) > 1 {
+			eseq = fmt.Sprintf("(seqof (select (select %s %s) %s) %s %s)", preInt, eTyp, eRef, eOff, eLen)
+		}
+		if eseq != "" {
+			t.assume(R, fmt.Sprintf("(= (seqof (select (select %s %s) %s) %s (slen %s)) (seq_cat (seqof (select (select %s (styp %s)) (sref %s)) (soff %s) (slen %s)) %s))",
+				nw, rTyp, rRef, rOff, r, preInt, s, s, s, s, eseq))
+		}
+	}
 }
 
 func (t *tr) copyBuiltin(ins ssa.Instruction, x ssa.Value, args []ssa.Value, R string, heaps map[string]string) {
